@@ -25,6 +25,9 @@ type CorpusFile struct {
 	Data   []byte
 	Fields []Field
 	Binary bool
+	// Big: far larger than any internal buffer (tens of KiB); faults are enumerated
+	// around buffer-size boundaries and at a stride instead of at every offset
+	Big bool
 }
 
 func tri(a, b, c [3]float64) *model3d.Triangle {
@@ -272,6 +275,14 @@ func BuildCorpus() []*CorpusFile {
 			fmt.Fprintf(&b, "3 %d %d %d\n", i*3, i*3+1, i*3+2)
 		}
 		add("off_300", "off", []byte(b.String()), nil)
+	}
+	{
+		d := model3d.EncodeSTL(smallMesh(1400)) // 70 KiB: beyond a 64 KiB buffer
+		add("stl_bin_1400", "stl", d, []Field{{Off: 80, Len: 4, Kind: "u32le", Role: "count"}})
+		c[len(c)-1].Big = true
+		d = model3d.EncodePLY(smallMesh(700), colorOf) // ~80 KiB of text
+		add("ply_mesh_700", "plymesh", d, nil)
+		c[len(c)-1].Big = true
 	}
 	d := offTetra(false)
 	add("off_tetra", "off", d, tokenFields(d))
